@@ -343,7 +343,7 @@ P["C15"] = {"property": "C15", "level": "proof", "units": [
       "json_t *w; jwt_value_t *v; __setter(w, v);", "__setter/contract_C15___setter", stubs=SETGET_STUBS, flags=[],
       expect=["contract_C15___setter\\.postcondition\\.4", "contract_C15___setter\\.postcondition\\.5"]),
     U("C15.__setter_json", "__setter -> jwt_set_json -> jwt_obj_check (libjwt/jwt-setget.c)", SETGET_C, "contracts/jwt_setget_c.h",
-      "json_t *w; jwt_value_t *v; __setter(w, v);", "__setter/contract_C15___setter_json", stubs=SETGET_STUBS, flags=[],
+      "json_t *w; jwt_value_t *v; __setter(w, v);", "__setter/contract_C15___setter_json", stubs=SETGET_STUBS, flags=[], replay={"driver": "replay/r_C15_uaf.c"},
       expect=["contract_C15___setter_json\\.postcondition\\.2", "contract_C15___setter_json\\.postcondition\\.4"]),
     U("C15.__deleter", "__deleter (libjwt/jwt-setget.c)", SETGET_C, "contracts/jwt_setget_c.h",
       "json_t *w; const char *f; __deleter(w, f);", "__deleter/contract_C15___deleter", stubs=SETGET_STUBS, flags=[],
